@@ -207,6 +207,98 @@ pub unsafe extern "C" fn madvise(addr: *mut libc::c_void, len: libc::size_t, adv
 }
 
 // ---------------------------------------------------------------------------------------
+// write(2): inside `Serialize::store` the simulator scripts the kernel's answers to the buffered
+// writer (short writes, EINTR, a hard errno), so that the *real* `BufWriter<File>` path is faulted
+// at arbitrary positions, not only at the positions /dev/full and RLIMIT_FSIZE allow.
+
+pub const WS_OK: u8 = 0;
+/// accept at most (code - WS_SHORT_BASE + 1) bytes
+pub const WS_SHORT_BASE: u8 = 16;
+pub const WS_EINTR: u8 = 1;
+pub const WS_ENOSPC: u8 = 2;
+pub const WS_EIO: u8 = 3;
+pub const WS_ZERO: u8 = 4;
+const WSCRIPT_LEN: usize = 24;
+
+thread_local! {
+    static IN_STORE: Cell<u32> = const { Cell::new(0) };
+    static WSCRIPT: Cell<[u8; WSCRIPT_LEN]> = const { Cell::new([0; WSCRIPT_LEN]) };
+    static WRITE_CALLS: Cell<usize> = const { Cell::new(0) };
+    static WRITE_FAULTS: Cell<u32> = const { Cell::new(0) };
+    static WRITE_TERMINAL: Cell<u32> = const { Cell::new(0) };
+    static WRITE_ACCEPTED: Cell<usize> = const { Cell::new(0) };
+}
+
+#[no_mangle]
+pub unsafe extern "C" fn write(fd: libc::c_int, buf: *const libc::c_void, count: libc::size_t) -> libc::ssize_t {
+    let mut count = count;
+    if fd > 2 && IN_STORE.with(|c| c.get()) > 0 {
+        let n = WRITE_CALLS.with(|c| {
+            let v = c.get();
+            c.set(v + 1);
+            v
+        });
+        let code = if n < WSCRIPT_LEN { WSCRIPT.with(|c| c.get())[n] } else { WS_OK };
+        match code {
+            WS_OK => {}
+            WS_EINTR => {
+                WRITE_FAULTS.with(|c| c.set(c.get() + 1));
+                set_errno(libc::EINTR);
+                return -1;
+            }
+            WS_ENOSPC | WS_EIO => {
+                WRITE_FAULTS.with(|c| c.set(c.get() + 1));
+                WRITE_TERMINAL.with(|c| c.set(c.get() + 1));
+                set_errno(if code == WS_ENOSPC { libc::ENOSPC } else { libc::EIO });
+                return -1;
+            }
+            WS_ZERO => {
+                if count > 0 {
+                    WRITE_FAULTS.with(|c| c.set(c.get() + 1));
+                    WRITE_TERMINAL.with(|c| c.set(c.get() + 1));
+                    return 0;
+                }
+            }
+            c if c >= WS_SHORT_BASE => {
+                let max = (c - WS_SHORT_BASE) as usize + 1;
+                if count > max {
+                    WRITE_FAULTS.with(|c| c.set(c.get() + 1));
+                    count = max;
+                }
+            }
+            _ => {}
+        }
+    }
+    let r = libc::syscall(libc::SYS_write, fd, buf, count) as libc::ssize_t;
+    if r > 0 && fd > 2 && IN_STORE.with(|c| c.get()) > 0 {
+        WRITE_ACCEPTED.with(|c| c.set(c.get() + r as usize));
+    }
+    r
+}
+
+pub struct StoreCall;
+/// The calling thread is inside `store`: its write(2) calls follow `script` (one code per call).
+pub fn store_enter(script: &[u8]) -> StoreCall {
+    let mut s = [0u8; WSCRIPT_LEN];
+    let n = script.len().min(WSCRIPT_LEN);
+    s[..n].copy_from_slice(&script[..n]);
+    WSCRIPT.with(|c| c.set(s));
+    WRITE_CALLS.with(|c| c.set(0));
+    WRITE_FAULTS.with(|c| c.set(0));
+    WRITE_TERMINAL.with(|c| c.set(0));
+    WRITE_ACCEPTED.with(|c| c.set(0));
+    IN_STORE.with(|c| c.set(c.get() + 1));
+    StoreCall
+}
+impl Drop for StoreCall {
+    fn drop(&mut self) {
+        IN_STORE.with(|c| c.set(c.get() - 1));
+    }
+}
+/// (write calls, faults fired, terminal faults fired, bytes the kernel accepted) of the last store on this thread
+pub fn store_stats() -> (usize, u32, u32, usize) {
+    (WRITE_CALLS.with(|c| c.get()), WRITE_FAULTS.with(|c| c.get()), WRITE_TERMINAL.with(|c| c.get()), WRITE_ACCEPTED.with(|c| c.get()))
+}
 
 pub struct LoaderCall;
 pub fn loader_enter(op: u16) -> LoaderCall {
